@@ -301,20 +301,56 @@ Print Assumptions C07_handle_returns_current_model.
 
 (* ---------------- property packages ---------------- *)
 
-(* The ideal mixture models pair flows with pure-component functors by position.  After ANY history of
-   Thermo(chemicals), subset (same chemicals re-ordered, strict subsets), extended and ideal, INTERLEAVED WITH ANY
-   CHANGES OF THE CHEMICALS (PChem f: setters, reset_free_energies, copy_models_from, copies, ... -- whatever they
-   do to the store of chemicals), every package's mixture (i) holds at index i a model of the i-th of ITS OWN
-   chemicals and (ii) every such model evaluates that chemical's CURRENT functors ([None]) rather than functor
-   objects captured when the mixture was built -- so C07_mix_H_weighted_sum / C07_mix_Cn_linear /
-   C07_mix_entropy_partial, applied to the models of that package, speak about what the package's own chemicals
-   report now, in the package's own order.  The order of the models, whether they are live and whether subset
-   rebuilds the mixture are generated from mixture/mixture.py and _thermo.py (Gen_Packages.v).  No axioms. *)
-Theorem C07_package_mixture_aligned : forall (St : Type) (st0 : St) (ops : list (pop St)) (p : pkg St),
-  In p (snd (prun St (st0, nil) ops)) ->
-  map fst (p_models p) = p_chems p /\ List.Forall (fun e => snd e = None) (p_models p).
-Proof. exact packages_aligned. Qed.
-Print Assumptions C07_package_mixture_aligned.
+(* The ideal mixture models pair flows with pure-component functors by position, and (generated from mixture/mixture.py:
+   mixture_models_live = false) they keep the functor OBJECTS they found when the mixture was built.
+   [same c s s'] says that chemical c has the same H / S functor objects in store states s and s'; an entry
+   [(c, Some s)] tracks the current state when they are still the chemical's objects.
+
+   FULL statement of the clause "mixture H / S are the mole-weighted sums of the pure values" for packages: after ANY
+   history of Thermo(chemicals), subset, extended, ideal, interleaved with ANY changes of the chemicals, every package's
+   models are in the package's own order and evaluate the functors its chemicals have NOW. *)
+Definition package_mixture_aligned_statement : Prop :=
+  forall (St : Type) (same : nat -> St -> St -> bool), (forall c s, same c s s = true) ->
+  forall (st0 : St) (ops : list (pop St)) (p : pkg St), In p (snd (prun St same (st0, nil) ops)) ->
+    map fst (p_models p) = p_chems p /\
+    List.Forall (entry_tracks St same (fst (prun St same (st0, nil) ops))) (p_models p).
+
+(* refuted: Thermo([chemical 0]) is built, then the functors of chemical 0 are rebuilt (phase_ref / Tb / Tm setter,
+   reset_free_energies, copy_models_from, at_state): the package still evaluates the discarded objects *)
+Theorem C07_package_mixture_aligned_refuted : ~ package_mixture_aligned_statement.
+Proof.
+  intros ST. destruct witness_package_is_stale as (p & e & Hp & He & N).
+  destruct (ST nat wit_same (fun c s => PeanoNat.Nat.eqb_refl s) 0%nat wit_ops p Hp) as [_ F].
+  apply N. rewrite List.Forall_forall in F. exact (F e He).
+Qed.
+Print Assumptions C07_package_mixture_aligned_refuted.
+
+(* partial 1: the ORDER is right after any history at all (what seeded change C07-6 broke) *)
+Theorem C07_package_mixture_ordered : forall (St : Type) (same : nat -> St -> St -> bool) (st0 : St) (ops : list (pop St)) (p : pkg St),
+  In p (snd (prun St same (st0, nil) ops)) -> map fst (p_models p) = p_chems p.
+Proof. exact packages_ordered. Qed.
+Print Assumptions C07_package_mixture_ordered.
+
+(* partial 2: as long as no chemical is changed after the first package exists (whatever was done to the chemicals before
+   is in st0), every package -- built, re-derived by subset / extended, or shared by ideal -- evaluates the current functors *)
+Theorem C07_package_mixture_aligned_partial : forall (St : Type) (same : nat -> St -> St -> bool),
+  (forall c s, same c s s = true) ->
+  forall (st0 : St) (ops : list (pop St)) (p : pkg St),
+    List.Forall (no_chem St) ops -> In p (snd (prun St same (st0, nil) ops)) ->
+    List.Forall (entry_tracks St same (fst (prun St same (st0, nil) ops))) (p_models p).
+Proof. exact packages_track_without_chemical_changes. Qed.
+Print Assumptions C07_package_mixture_aligned_partial.
+
+(* partial 3: the S0 / Hfus / Sfus setters write the datum into the EXISTING functor objects of the chemical (generated:
+   reset_energy_constant patches in place), so the functor objects of every chemical are the same before and after --
+   a package that tracked the chemical keeps tracking it and sees the new datum (what seeded change C07-7 broke) *)
+Theorem C07_constant_setters_keep_functor_objects :
+  forall (Cc Hc Sc : Type) (d0 : Cc) (merge_cn : cnkind -> cnkind -> Cc -> Cc -> Cc)
+         (s : state Cc Hc Sc) (i : nat) (w : scalar_name) (f : Sc -> Sc),
+    w = WHfus \/ w = WSfus \/ w = WS0 ->
+    map (w_ver Cc Hc Sc) (snd (step Cc Hc Sc d0 merge_cn s (OSetSc Cc Hc Sc i w f))) = map (w_ver Cc Hc Sc) (snd s).
+Proof. exact constant_setters_keep_functor_objects. Qed.
+Print Assumptions C07_constant_setters_keep_functor_objects.
 
 (* non-vacuity: the hypotheses are satisfiable *)
 Example C07_chem_ok_satisfiable : chem_ok (fun _ _ => 75) (fun _ => 40650) 298 101325 273 373.
